@@ -1,5 +1,6 @@
 import OpusModel.Delay
 import OpusModel.Mdct
+import OpusModel.DelayChannels
 /-
   Driver.DelayMain — stand-alone checker for the C04 ties (run with `lake env lean --run Driver/DelayMain.lean`,
   no registration in Driver/Main.lean needed).  Reads the `I …` / `O …` stream of harness/c04_roundtrip.c on stdin
@@ -7,6 +8,7 @@ import OpusModel.Mdct
 
     I delay lookahead <kind> <Fs> <app> <ch>           O <OPUS_GET_LOOKAHEAD | ERR name>       exact
     I delay setapp single <Fs> <app> <ch> <newapp>     O <look-ahead after OPUS_SET_APPLICATION> exact
+    I delay encroute <ch> <streams> <coupled> <map>    O s<stride>o<offset>c<channel> … (copy_channel_in calls) exact
     I mdct fwd <shift> <in>                            O <clt_mdct_forward_c output>            relative 1e-4
     I mdct bwd <shift> <coef> <outbuf>                 O <clt_mdct_backward_c output buffer>    relative 1e-4
   For `mdct fwd` the model's fold → DFT → post-rotation result is additionally compared with the textbook MDCT
@@ -36,6 +38,17 @@ def parseFloats (s : String) : Option Vec :=
           go rest fuel (acc.push (Float32.ofBits u.toUInt32).toFloat)
         | _ => acc
     some (go cs (cs.length / 8) #[])
+  | _ => none
+
+/-- `x` followed by two hex digits per byte. -/
+def parseBytes (s : String) : Option (List Nat) :=
+  match s.toList with
+  | 'x' :: cs =>
+    if cs.length % 2 != 0 then none else
+    let rec go : List Char → List Nat
+      | a :: b :: rest => (hexVal a * 16 + hexVal b) :: go rest
+      | _ => []
+    some (go cs)
   | _ => none
 
 def maxAbs (a : Vec) : Float := a.foldl (fun m x => if x.abs > m || x != x then x.abs else m) 0.0
@@ -84,6 +97,13 @@ def delayAnswer : List String → Option String
     match fs.toNat?, app.toInt?, ch.toNat?, napp.toInt? with
     | some fs, some app, some ch, some napp =>
       some (resNatStr (((init fs ch app).bind fun st => setApplication st napp).bind fun st => .ok (getLookahead st)))
+    | _, _, _, _ => none
+  | ["delay", "encroute", ch, st, cp, mp] =>
+    match ch.toNat?, st.toNat?, cp.toNat?, parseBytes mp with
+    | some ch, some st, some cp, some m =>
+      if m.length != ch then none else
+      let l : Opus.Layout.ChannelLayout := { nbChannels := ch, nbStreams := st, nbCoupled := cp, mapping := m }
+      some (" ".intercalate ((Opus.DelayChannels.encoderCalls l).map fun k => s!"s{k.stride}o{k.offset}c{k.chan}"))
     | _, _, _, _ => none
   | _ => none
 
@@ -169,7 +189,8 @@ partial def loop (h : IO.FS.Stream) (direct : Bool) (st : Stats) (pending : Opti
 def main (args : List String) : IO UInt32 := do
   let stdin ← IO.getStdin
   let st ← loop stdin (args.contains "direct") {} none
-  IO.println s!"# mdct worst relative error: forward code-vs-model {sci st.worstFwd}, backward code-vs-model {sci st.worstBwd}, fold/DFT model vs textbook MDCT {sci st.worstDirect} ({st.nDirect} vectors); tolerances {sci tol} / {sci tolDirect}"
+  if st.dist.any (fun kn => kn.1.startsWith "mdct") then
+    IO.println s!"# mdct worst relative error: forward code-vs-model {sci st.worstFwd}, backward code-vs-model {sci st.worstBwd}, fold/DFT model vs textbook MDCT {sci st.worstDirect} ({st.nDirect} vectors); tolerances {sci tol} / {sci tolDirect}"
   for (k, n) in st.dist do
     IO.println s!"DIST {k} {n}"
   IO.println s!"SUMMARY cases={st.cases} mismatches={st.mismatches}"
